@@ -3,7 +3,8 @@
     (The connection limit is a field of Kitex's limit.Option that the model does not carry: the check asserts on
     the implementation that it is never restricted.) *)
 From Xds Require Import Model.Base Model.Fqdn Model.Proto Model.Decode Model.Sys Model.Policy.
-From Xds Require Import Proofs.PolicyProofs.
+From Xds Require Import Model.DecodeCheck Model.Pick Model.Route Model.Mw Model.SysCheck Model.PolicyCheck.
+From Xds Require Import Proofs.PolicyProofs Proofs.PolicySysProofs.
 Open Scope string_scope.
 
 (** The limit after a listener update: tokens-per-fill of the inbound listener's chain for the configured port
@@ -37,3 +38,10 @@ Theorem C18_late_registration : forall p port replay,
   exists s, p_lim (p_register p (KLimiter port) replay) = Some s /\ lm_port s = port /\ lm_pushes s = [lm_qps s].
 Proof. exact lim_late_registration. Qed.
 Print Assumptions C18_late_registration.
+
+(** END TO END, over every history of the manager + client + registered consumers (no eviction sweeps): the limit is
+    the one of the inbound listener CURRENTLY cached ([C18_limit] says which), from registration on. *)
+Theorem C18_tracks_the_cache : forall c o h ls, forallb pop_ok h = true -> p_lim (snd (jrun c o h)) = Some ls ->
+  lim_tracks ls (tget TLis (s_cache (fst (jrun c o h)))).
+Proof. exact limiter_tracks_cache. Qed.
+Print Assumptions C18_tracks_the_cache.
